@@ -6,6 +6,9 @@ package c19
 
 import (
 	"strings"
+	"unicode"
+
+	"golang.org/x/net/html"
 
 	"pgregory.net/rapid"
 
@@ -236,7 +239,11 @@ func (g *gen) textSource(allowWS bool) string {
 			// literal ampersand sequences: the text shows "&amp;", "&lt;" ...
 			sb.WriteString(g.pick("lit", []string{"&amp;amp;", "&amp;lt;", "&amp;#60;", "&amp;copy", "&amp;nbsp;", "AT&amp;T", "a &amp;b"}))
 		case 10:
-			sb.WriteString(g.pick("ent", []string{"&copy;", "&nbsp;", "&mdash;", "&hellip;", "&eacute;"}))
+			e := g.pick("ent", []string{"&copy;", "&nbsp;", "&mdash;", "&hellip;", "&eacute;", "&nbsp;|&nbsp;", "\u00a0", "&emsp;", "\u3000"})
+			if hasWideSpace(html.UnescapeString(e)) && g.avoid(fNbsp) {
+				e = "&middot;"
+			}
+			sb.WriteString(e)
 		case 11:
 			sb.WriteString(g.pick("lone", []string{"}}", "{ x }", "} }", "}"}))
 		}
@@ -280,7 +287,7 @@ var freeBits = []string{
 	"x", "hello world", "a  b", " lead", "trail ", "a\nb", "a\n    b", "a\tb", `"`, `say "hi"`, "'", "it's", `"'`,
 	"&", "&&", "a & b", "AT&T", "&amp;", "&lt;", "&quot;", "&#39;", "&copy", "&copy;", "&lt", "&amp", "&notit;", "&#x3c;", "a&b=c", "?a=1&b=2", "?a=1&copy=2&lt=3",
 	"<", ">", "<=", "=>", "a < b", "a<b", "<b>", "</p>", "{{ x }}", "{{ a < b }}", `{{ "q" }}`, "{a: 1}", `{"a": 1, "b": "x"}`,
-	"é", "日本", "100%", "a;b", "=", "`", "\\", "\r\n",
+	"é", "日本", "100%", "a;b", "=", "`", "\\", "\r\n", "\u00a0", "a\u00a0b", "\u2003x",
 }
 
 func (g *gen) freeValue() string {
@@ -307,6 +314,14 @@ func (g *gen) sanitise(v string) string {
 		if reparseAttr(v) != v {
 			v = strings.ReplaceAll(v, "&", "and")
 		}
+	}
+	if hasWideSpace(v) && g.avoid(fNbsp) {
+		v = strings.Map(func(r rune) rune {
+			if r > 0x7f && unicode.IsSpace(r) {
+				return '_'
+			}
+			return r
+		}, v)
 	}
 	if isBlank(v) && g.avoid(fBlank) {
 		v = ""
@@ -846,7 +861,7 @@ func (g0 *genEnv) genCase(t *rapid.T) Case {
 		c.Body = serialise(roots, pretty)
 	case shape == 5: // fragment whose roots are table-scoped elements
 		var roots []*node
-		switch g.n("tfrag", 0, 3) {
+		switch g.n("tfrag", 0, 4) {
 		case 0:
 			roots = g.rows(2, fb)
 			if roots[0].tag == "template" { // the context of the fragment is that of a leading <tr>
@@ -868,6 +883,14 @@ func (g0 *genEnv) genCase(t *rapid.T) Case {
 		case 3:
 			roots = append(roots, &node{tag: "col", void: true, attrs: g.attrs("col")}, &node{tag: "col", void: true})
 			c.Ctx = "colgroup"
+		case 4:
+			if g.chance("capfirst", 2) {
+				roots = append(roots, &node{tag: "caption", inline: true, attrs: g.attrs("caption"), kids: g.phrasing(1, fb)})
+			} else {
+				roots = append(roots, &node{tag: "colgroup", attrs: g.attrs("colgroup"), kids: []*node{{tag: "col", void: true}}})
+			}
+			roots = append(roots, &node{tag: "tbody", kids: g.rows(1, fb)})
+			c.Ctx = "table"
 		}
 		c.Body = serialise(roots, pretty)
 	default: // full document
